@@ -88,6 +88,8 @@ type c09foreignMsg struct {
 	wire  []byte
 	isBin bool
 	want  string
+	// wantVal (when set): the whole decoded value is compared with it (absent string == empty string)
+	wantVal interface{}
 }
 
 // c09foreign: legal renderings by OTHER encoders: one chunk may hold up to 65535 characters / octets
@@ -98,10 +100,10 @@ func c09foreign() []c09foreignMsg {
 		for ci, unit := range []string{"a", "é", "世"} {
 			s := strings.Repeat(unit, n)
 			w := append([]byte{'S', byte(n >> 8), byte(n)}, s...)
-			out = append(out, c09foreignMsg{fmt.Sprintf("one final string chunk of %d characters (class %d)", n, ci), w, false, s})
+			out = append(out, c09foreignMsg{fmt.Sprintf("one final string chunk of %d characters (class %d)", n, ci), w, false, s, nil})
 		}
 		b := bytes.Repeat([]byte{0xa5}, n)
-		out = append(out, c09foreignMsg{fmt.Sprintf("one final binary chunk of %d octets", n), append([]byte{'B', byte(n >> 8), byte(n)}, b...), true, string(b)})
+		out = append(out, c09foreignMsg{fmt.Sprintf("one final binary chunk of %d octets", n), append([]byte{'B', byte(n >> 8), byte(n)}, b...), true, string(b), nil})
 	}
 	// Java style: non-final chunks of 0x8000 characters, then the rest
 	s := strings.Repeat("j", 0x8000) + strings.Repeat("é", 0x8000) + "tail"
@@ -109,23 +111,35 @@ func c09foreign() []c09foreignMsg {
 	w = append(w, 'R', 0x80, 0x00)
 	w = append(w, strings.Repeat("é", 0x8000)...)
 	w = append(w, 0x04, 't', 'a', 'i', 'l')
-	out = append(out, c09foreignMsg{"two non-final chunks of 32768 characters and a short final one", w, false, s})
+	out = append(out, c09foreignMsg{"two non-final chunks of 32768 characters and a short final one", w, false, s, nil})
 	bb := bytes.Repeat([]byte{7}, 0xffff)
 	wb := append([]byte{'A', 0xff, 0xff}, bb...)
 	wb = append(wb, 0x22, 1, 2)
-	out = append(out, c09foreignMsg{"a non-final binary chunk of 65535 octets and a short final one", wb, true, string(bb) + "\x01\x02"})
+	out = append(out, c09foreignMsg{"a non-final binary chunk of 65535 octets and a short final one", wb, true, string(bb) + "\x01\x02", nil})
 	// a chunked value closed by an EMPTY final chunk (x20 / 'B' 0 0 / x34 0 for binaries, x00 / 'S' 0 0 for strings)
 	b4 := bytes.Repeat([]byte{0x3c}, 4096)
 	for i, fin := range [][]byte{{0x20}, {'B', 0, 0}, {0x34, 0}} {
 		w := append(append([]byte{'A', 0x10, 0x00}, b4...), fin...)
-		out = append(out, c09foreignMsg{fmt.Sprintf("a 4096-octet non-final binary chunk closed by the empty final chunk #%d", i), w, true, string(b4)})
+		out = append(out, c09foreignMsg{fmt.Sprintf("a 4096-octet non-final binary chunk closed by the empty final chunk #%d", i), w, true, string(b4), nil})
 		w2 := append([]byte{0x41, 0x00, 0x03, 1, 2, 3, 0x41, 0x00, 0x02, 4, 5}, fin...)
-		out = append(out, c09foreignMsg{fmt.Sprintf("two short non-final binary chunks closed by the empty final chunk #%d", i), w2, true, "\x01\x02\x03\x04\x05"})
+		out = append(out, c09foreignMsg{fmt.Sprintf("two short non-final binary chunks closed by the empty final chunk #%d", i), w2, true, "\x01\x02\x03\x04\x05", nil})
+	}
+	// the one-octet forms of the EMPTY string (x00) and the empty binary (x20) in front of other values: an
+	// empty value is a whole value (this library's encoder writes null for both, other encoders do not)
+	for _, m := range []c09foreignMsg{
+		{name: "x00 then a string in a variable-length list", wire: []byte{0x57, 0x00, 0x03, 'a', 'b', 'c', 'Z'}, wantVal: []interface{}{"", "abc"}},
+		{name: "two x00 then a string in a fixed-length list", wire: []byte{0x7b, 0x00, 0x00, 0x02, 0xc3, 0xa9, 'x'}, wantVal: []interface{}{"", "", "éx"}},
+		{name: "x00 as map key and as map value", wire: []byte{'H', 0x00, 0x01, 'v', 0x01, 'k', 0x00, 'Z'}, wantVal: map[interface{}]interface{}{"": "v", "k": ""}},
+		{name: "x20 then a binary in a list", wire: []byte{0x57, 0x20, 0x23, 'a', 'b', 'c', 'Z'}, wantVal: []interface{}{[]byte{}, []byte("abc")}},
+		{name: "'S' 0 0 then a string, 'B' 0 0 then a binary", wire: []byte{0x7c, 'S', 0, 0, 0x01, 'q', 'B', 0, 0, 0x21, 7}, wantVal: []interface{}{"", "q", []byte{}, []byte{7}}},
+		{name: "x00 then an int and a string (x91 could be taken for a tag-less continuation)", wire: []byte{0x7b, 0x00, 0x91, 0x02, 'h', 'i'}, wantVal: []interface{}{"", int32(1), "hi"}},
+	} {
+		out = append(out, m)
 	}
 	s3 := strings.Repeat("é", 2048)
 	for i, fin := range [][]byte{{0x00}, {'S', 0, 0}, {0x30, 0}} {
 		w := append(append([]byte{'R', 0x08, 0x00}, s3...), fin...)
-		out = append(out, c09foreignMsg{fmt.Sprintf("a 2048-character non-final string chunk closed by the empty final chunk #%d", i), w, false, s3})
+		out = append(out, c09foreignMsg{fmt.Sprintf("a 2048-character non-final string chunk closed by the empty final chunk #%d", i), w, false, s3, nil})
 	}
 	return out
 }
@@ -501,6 +515,10 @@ func (c09) Run(c Case, env *Env) Result {
 				viol(pi.Class, "panic "+pi.Msg)
 			case err != nil:
 				viol("dec-error", err.Error())
+			case m.wantVal != nil:
+				if d := zoo.Equiv(m.wantVal, out, zoo.EquivOpts{}); d != "" {
+					viol("mismatch:content", fmt.Sprintf("decoded %T %.120v: %s", out, out, d))
+				}
 			default:
 				got, ok := "", false
 				if m.isBin {
